@@ -1,4 +1,5 @@
 import CashewsVerif.Lemmas.LockExamples
+import CashewsVerif.Lemmas.LockHealth
 /-
 C06 — `cache.lock` / `@locked` give mutual exclusion with owner-only release.
 
@@ -11,8 +12,18 @@ and owner-checked `unlock`) and the ideal TTL map (= Redis `SET NX PX` + the `_U
 and the `…_mem` theorems are the instantiations for the in-memory model started empty.
 
 Vocabulary: `run B s0 tr` is the state after the trace `tr`; `insideKey s t key` = activation `t`
-is in the section guarded by `key`; `withinLease B s t` = it is, and its lock ttl has not elapsed
-(`now < acquisition instant + ttl`; no ttl = never elapses).
+is in the section guarded by `key` HOLDING the lock; `withinLease B s t` = it is, and its lock ttl has
+not elapsed (`now < acquisition instant + ttl`; no ttl = never elapses); `inSection s t key` = it is in
+the section with or without a lock (`unguarded`: `lock()` yielded because SET_LOCK is disabled on the
+backend that owns the key, or because the liveness probe got no answer); `overstayed B s t` = it holds
+a lock whose ttl has elapsed.
+
+The traces contain, besides the lock commands, the transaction moves of the threads (`txBegin`,
+`txSet`, `txEnd`: a task may be inside a `cache.transaction()` block of any mode when it takes or
+releases a lock, see `inTx`) and changes of the health of the configured backends (`setHealth`); every
+theorem below is stated for all such traces.  The section-level theorems (`section_exclusion…`,
+`contended_attempt_healthy_owner`) need exactly one thing: the backend that OWNS the key (`s.route key`,
+prefix routing of C17) stays healthy - the other backends may be disabled or down.
 -/
 namespace CashewsVerif.Props.C06
 open CashewsVerif CashewsVerif.Lock
@@ -179,11 +190,14 @@ theorem released_on_every_exit (C : LockContract B Ok keyOk) {s0 : LockSt σ}
 /-- **Acquisition liveness.** In every reachable state, if there is no live lock on the key
 (never taken, released, or its ttl elapsed), the next attempt of a waiting or newly arrived
 activation succeeds: it is inside the section and owns the key with a fresh lease.  No premise
-about the purge task or anything else. -/
+about the purge task, about the probe or about any other backend; the one premise `hen` is that
+`set_lock` is not a disabled command on the backend owning the key (a disabled `set_lock` answers
+None and `lock()` then runs the section without locking, see `disabled_set_lock_means_no_locking`). -/
 theorem acquisition_liveness (C : LockContract B Ok keyOk) {s0 : LockSt σ}
     (h0 : Start B Ok s0) (tr : List Act) (htr : ∀ a ∈ tr, a.keysIn keyOk)
     (t key : Nat) (ttl : Option Nat) (wait : Bool) (tok : Nat)
     (ht : (run B s0 tr).tasks t = .trying key ttl wait tok)
+    (hen : ((run B s0 tr).health ((run B s0 tr).route key)).setLock = true)
     (hfree : B.owner (run B s0 tr).be key = none) :
     let s := run B s0 tr
     (step B s (.attempt t)).2 = .acquired ∧
@@ -193,7 +207,7 @@ theorem acquisition_liveness (C : LockContract B Ok keyOk) {s0 : LockSt σ}
   generalize run B s0 tr = s at *
   have hk := inv.keys t key ttl wait tok ht
   obtain ⟨r1, r2⟩ := C.setLock_free s.be key (ownTok tok) ttl inv.ok hk hfree
-  simp only [step, ht, r1, if_true, setTask_tasks, true_and]
+  simp only [step, ht, attemptCore, hen, r1, if_true, setTask_tasks, true_and]
   exact r2
 
 /-- For the in-memory model "no live lock" is a statement about the raw store: the key is absent
@@ -202,11 +216,13 @@ theorem acquisition_liveness_mem (cap : Nat) (K : List Key) (hK : K.length ≤ c
     (tr : List Act) (htr : ∀ a ∈ tr, a.keysIn (· ∈ K))
     (t key : Nat) (ttl : Option Nat) (wait : Bool) (tok : Nat)
     (ht : (run memOps (init (Mem.init cap)) tr).tasks t = .trying key ttl wait tok)
+    (hen : ((run memOps (init (Mem.init cap)) tr).health
+      ((run memOps (init (Mem.init cap)) tr).route key)).setLock = true)
     (hraw : Store.lookup (run memOps (init (Mem.init cap)) tr).be.store key = none ∨
       ∃ e d, Store.lookup (run memOps (init (Mem.init cap)) tr).be.store key = some e ∧
         e.dl = some d ∧ d ≤ (run memOps (init (Mem.init cap)) tr).be.now) :
     (step memOps (run memOps (init (Mem.init cap)) tr) (.attempt t)).2 = .acquired := by
-  exact (acquisition_liveness (memContract K) (mem_start cap K hK) tr htr t key ttl wait tok ht
+  exact (acquisition_liveness (memContract K) (mem_start cap K hK) tr htr t key ttl wait tok ht hen
     ((memOwner_none_iff _ key).mpr hraw)).1
 
 /-- After a holder that is within its lease leaves (in any way), the next attempt of a waiter on
@@ -216,7 +232,8 @@ theorem acquire_after_release (C : LockContract B Ok keyOk) {s0 : LockSt σ}
     (t1 t2 key : Nat) (how : How) (tok1 tok2 : Nat) (dl : Option Nat) (ttl : Option Nat) (wait : Bool)
     (h1 : (run B s0 tr).tasks t1 = .inside key tok1 dl)
     (hw : withinLease B (run B s0 tr) t1 = true)
-    (h2 : (run B s0 tr).tasks t2 = .trying key ttl wait tok2) :
+    (h2 : (run B s0 tr).tasks t2 = .trying key ttl wait tok2)
+    (hen : ((run B s0 tr).health ((run B s0 tr).route key)).setLock = true) :
     (step B (run B s0 (tr ++ [.leave t1 how])) (.attempt t2)).2 = .acquired := by
   have hrel := released_on_every_exit C h0 tr htr t1 how key tok1 dl h1
   simp only at hrel
@@ -227,16 +244,16 @@ theorem acquire_after_release (C : LockContract B Ok keyOk) {s0 : LockSt σ}
     rcases ha with ha | ha
     · exact htr a ha
     · rw [ha]; trivial
-  have hrun : run B s0 (tr ++ [Act.leave t1 how]) = (step B (run B s0 tr) (.leave t1 how)).1 := by
-    clear hrel h1 hw h2 htr htr' h0
-    induction tr generalizing s0 with
-    | nil => rfl
-    | cons a as ih => simp only [List.cons_append, run]; exact ih
+  have hrun : run B s0 (tr ++ [Act.leave t1 how]) = (step B (run B s0 tr) (.leave t1 how)).1 :=
+    run_snoc s0 tr _
+  have hen' : ((run B s0 (tr ++ [Act.leave t1 how])).health
+      ((run B s0 (tr ++ [Act.leave t1 how])).route key)).setLock = true := by
+    rw [hrun, step_route, step_health_eq _ _ (by intro b h; simp)]; exact hen
   have h2' : (run B s0 (tr ++ [Act.leave t1 how])).tasks t2 = .trying key ttl wait tok2 := by
     rw [hrun, hrel.2.1 t2 hne]; exact h2
   have hfree : B.owner (run B s0 (tr ++ [Act.leave t1 how])).be key = none := by
     rw [hrun]; exact (hrel.2.2.2.2.2 hw).2
-  exact (acquisition_liveness C h0 _ htr' t2 key ttl wait tok2 h2' hfree).1
+  exact (acquisition_liveness C h0 _ htr' t2 key ttl wait tok2 h2' hen' hfree).1
 
 /-- Once the ttl of the lock on a key has elapsed, the next attempt of a waiter on that key
 succeeds — whether or not the old holder is still inside, and with no purge in between. -/
@@ -245,7 +262,8 @@ theorem acquire_after_expiry (C : LockContract B Ok keyOk) {s0 : LockSt σ}
     (t key : Nat) (ttl : Option Nat) (wait : Bool) (tok : Nat) (v : Val) (d dt : Nat)
     (ht : (run B s0 tr).tasks t = .trying key ttl wait tok)
     (hown : B.owner (run B s0 tr).be key = some (v, some d))
-    (hexp : d ≤ B.now (run B s0 tr).be + dt) :
+    (hexp : d ≤ B.now (run B s0 tr).be + dt)
+    (hen : ((run B s0 tr).health ((run B s0 tr).route key)).setLock = true) :
     (step B (run B s0 (tr ++ [.tick dt])) (.attempt t)).2 = .acquired := by
   have inv := inv_reach C h0 tr htr
   have htr' : ∀ a ∈ tr ++ [Act.tick dt], a.keysIn keyOk := by
@@ -254,11 +272,11 @@ theorem acquire_after_expiry (C : LockContract B Ok keyOk) {s0 : LockSt σ}
     rcases ha with ha | ha
     · exact htr a ha
     · rw [ha]; trivial
-  have hrun : run B s0 (tr ++ [Act.tick dt]) = (step B (run B s0 tr) (.tick dt)).1 := by
-    clear inv ht hown hexp htr htr' h0
-    induction tr generalizing s0 with
-    | nil => rfl
-    | cons a as ih => simp only [List.cons_append, run]; exact ih
+  have hrun : run B s0 (tr ++ [Act.tick dt]) = (step B (run B s0 tr) (.tick dt)).1 :=
+    run_snoc s0 tr _
+  have hen' : ((run B s0 (tr ++ [Act.tick dt])).health
+      ((run B s0 (tr ++ [Act.tick dt])).route key)).setLock = true := by
+    rw [hrun, step_route, step_health_eq _ _ (by intro b h; simp)]; exact hen
   have ht' : (run B s0 (tr ++ [Act.tick dt])).tasks t = .trying key ttl wait tok := by
     rw [hrun]; simp only [step]; exact ht
   have hfree : B.owner (run B s0 (tr ++ [Act.tick dt])).be key = none := by
@@ -267,7 +285,7 @@ theorem acquire_after_expiry (C : LockContract B Ok keyOk) {s0 : LockSt σ}
     have : liveAt (some d) (B.now (run B s0 tr).be + dt) = false := by
       simp only [liveAt, decide_eq_false_iff_not]; omega
     simp [Option.filter, this]
-  exact (acquisition_liveness C h0 _ htr' t key ttl wait tok ht' hfree).1
+  exact (acquisition_liveness C h0 _ htr' t key ttl wait tok ht' hen' hfree).1
 
 /-! ### the same for the in-memory model started empty -/
 
@@ -291,6 +309,174 @@ theorem mutual_exclusion_mem (cap : Nat) (K : List Key) (hK : K.length ≤ cap)
     (h2 : insideKey (run memOps (init (Mem.init cap)) tr) t2 key = true) : t1 = t2 :=
   mutual_exclusion (memContract K) (mem_start cap K hK) tr htr hlease key t1 t2 h1 h2
 
+/-! ### several backends: the liveness probe concerns the backend that owns the key -/
+
+/-- **Nobody is in a section without a lock while the owning backend is healthy.**  `lock()` runs
+the section without holding the lock in two situations only: `set_lock` answered None (the command is
+disabled) or, after a refused `set_lock`, the probe `ping(b"LOCK")` got no answer (backend down).
+Both are read off the backend that OWNS the key.  Hence: if that backend is healthy at the start and no
+action of the trace makes IT unhealthy - the other configured backends may be disabled, lose single
+commands or go down at any point - no activation is ever `unguarded` on the key. -/
+theorem healthy_owner_never_unguarded {s0 : LockSt σ} (h0 : Start B Ok s0) (tr : List Act) (key : Nat)
+    (hh : s0.health (s0.route key) = Health.ok)
+    (hacts : ∀ a ∈ tr, a.keepsHealthy (s0.route key)) (t : Nat) :
+    (run B s0 tr).tasks t ≠ .unguarded key :=
+  run_no_unguarded s0 tr key hh hacts (fun t' => by rw [h0.2.2 t']; simp) t
+
+/-- **A contended attempt on a healthy owning backend never lets the caller in.**  In every reachable
+state: if the key has a live lock and the backend owning the key has SET_LOCK enabled and answers the
+probe, the attempt answers `retry` (wait=True) or `locked` (wait=False: `LockedError`), the caller is
+not in the section afterwards, and the live lock is untouched - whatever the health of every other
+backend (it does not occur in the statement). -/
+theorem contended_attempt_healthy_owner (C : LockContract B Ok keyOk) {s0 : LockSt σ}
+    (h0 : Start B Ok s0) (tr : List Act) (htr : ∀ a ∈ tr, a.keysIn keyOk)
+    (t key : Nat) (ttl : Option Nat) (wait : Bool) (tok : Nat) (o : Val × Option Nat)
+    (ht : (run B s0 tr).tasks t = .trying key ttl wait tok)
+    (hown : B.owner (run B s0 tr).be key = some o)
+    (hh : (run B s0 tr).health ((run B s0 tr).route key) = Health.ok) :
+    let s := run B s0 tr
+    (step B s (.attempt t)).2 = (if wait then .retry else .locked) ∧
+    inSection (step B s (.attempt t)).1 t key = false ∧
+    B.owner (step B s (.attempt t)).1.be key = some o := by
+  have inv := inv_reach C h0 tr htr
+  generalize run B s0 tr = s at *
+  have hk := inv.keys t key ttl wait tok ht
+  obtain ⟨r1, r2⟩ := C.setLock_held s.be key (ownTok tok) ttl o inv.ok hk hown
+  simp only [step, ht, attemptCore, hh, Health.ok, r1, if_true, Bool.false_eq_true, if_false]
+  cases wait with
+  | true => simp only [if_true, inSection, ht]; exact ⟨trivial, trivial, r2⟩
+  | false =>
+    simp only [Bool.false_eq_true, if_false, inSection, setTask_tasks, if_true]
+    exact ⟨trivial, trivial, r2⟩
+
+/-- **The probe concerns the owning backend only.**  Changing the health of any backend that does not
+own the key of a waiting activation changes neither the answer of its attempt nor the state it leads to
+(apart from that recorded health). -/
+theorem probe_concerns_owning_backend (s : LockSt σ) (t key : Nat) (ttl : Option Nat) (wait : Bool)
+    (tok : Nat) (ht : s.tasks t = .trying key ttl wait tok) (b : Nat) (hb : b ≠ s.route key) (h : Health) :
+    (step B (step B s (.setHealth b h)).1 (.attempt t)).2 = (step B s (.attempt t)).2 ∧
+    (step B (step B s (.setHealth b h)).1 (.attempt t)).1.tasks = (step B s (.attempt t)).1.tasks ∧
+    (step B (step B s (.setHealth b h)).1 (.attempt t)).1.be = (step B s (.attempt t)).1.be := by
+  have hne : ¬ (s.route key = b) := fun x => hb x.symm
+  simp only [step, ht, hne, if_false]
+  unfold attemptCore
+  dsimp only
+  cases (s.health (s.route key)).setLock <;> cases (s.health (s.route key)).ping <;> cases wait <;>
+    cases (B.setLock s.be key (ownTok tok) ttl).2 <;> exact ⟨rfl, rfl, rfl⟩
+
+/-- **Mutual exclusion of the sections, stronger form.**  While the backend owning the key stays
+healthy: if two different activations are in the section of the key at the same instant - with or
+without a lock - at least one of them holds a lock whose ttl has elapsed (it overstayed). -/
+theorem section_exclusion_within_lease (C : LockContract B Ok keyOk) {s0 : LockSt σ}
+    (h0 : Start B Ok s0) (tr : List Act) (htr : ∀ a ∈ tr, a.keysIn keyOk) (key : Nat)
+    (hh : s0.health (s0.route key) = Health.ok)
+    (hacts : ∀ a ∈ tr, a.keepsHealthy (s0.route key))
+    (t1 t2 : Nat) (hne : t1 ≠ t2)
+    (h1 : inSection (run B s0 tr) t1 key = true) (h2 : inSection (run B s0 tr) t2 key = true) :
+    overstayed B (run B s0 tr) t1 = true ∨ overstayed B (run B s0 tr) t2 = true := by
+  have hno := healthy_owner_never_unguarded (B := B) h0 tr key hh hacts
+  have hmx := mutual_exclusion_within_lease C h0 tr htr key t1 t2 hne
+  generalize run B s0 tr = s at *
+  have conv : ∀ t, inSection s t key = true → insideKey s t key = true ∧
+      (withinLease B s t = false → overstayed B s t = true) := by
+    intro t ht
+    unfold inSection at ht
+    unfold insideKey withinLease overstayed
+    cases hs : s.tasks t with
+    | inside k tok dl => simp only [hs] at ht; simp [ht]
+    | unguarded k =>
+      simp only [hs, beq_iff_eq] at ht
+      exact absurd (ht ▸ hs) (hno t)
+    | _ => simp [hs] at ht
+  obtain ⟨i1, o1⟩ := conv t1 h1
+  obtain ⟨i2, o2⟩ := conv t2 h2
+  have := hmx i1 i2
+  cases w1 : withinLease B s t1 with
+  | false => exact Or.inl (o1 w1)
+  | true =>
+    cases w2 : withinLease B s t2 with
+    | false => exact Or.inr (o2 w2)
+    | true => exact absurd ⟨w1, w2⟩ this
+
+/-- **Mutual exclusion of the sections.**  While the backend owning the key stays healthy and every
+lock holder of the key is within its lease, at most one activation is in the section of the key. -/
+theorem section_exclusion (C : LockContract B Ok keyOk) {s0 : LockSt σ}
+    (h0 : Start B Ok s0) (tr : List Act) (htr : ∀ a ∈ tr, a.keysIn keyOk) (key : Nat)
+    (hh : s0.health (s0.route key) = Health.ok)
+    (hacts : ∀ a ∈ tr, a.keepsHealthy (s0.route key))
+    (hlease : ∀ t, insideKey (run B s0 tr) t key = true → withinLease B (run B s0 tr) t = true)
+    (t1 t2 : Nat)
+    (h1 : inSection (run B s0 tr) t1 key = true) (h2 : inSection (run B s0 tr) t2 key = true) :
+    t1 = t2 := by
+  by_cases hne : t1 = t2
+  · exact hne
+  · exfalso
+    have hov : ∀ t, overstayed B (run B s0 tr) t = true → inSection (run B s0 tr) t key = true → False := by
+      intro t ho hi
+      have hl := hlease t
+      unfold overstayed at ho
+      unfold inSection at hi
+      unfold insideKey withinLease at hl
+      cases hs : (run B s0 tr).tasks t with
+      | inside k tok dl =>
+        simp only [hs] at ho hi hl
+        have := hl hi
+        simp [this] at ho
+      | _ => simp [hs] at ho
+    rcases section_exclusion_within_lease C h0 tr htr key hh hacts t1 t2 hne h1 h2 with h | h
+    · exact hov t1 h h1
+    · exact hov t2 h h2
+
+/-- The section-level mutual exclusion for the in-memory model with several backends (`n` keys per
+backend, `key / n` owns `key`) whose health `hl` is arbitrary except for the backend owning `key`. -/
+theorem section_exclusion_mem (cap : Nat) (K : List Key) (hK : K.length ≤ cap) (n : Nat) (hl : Nat → Health)
+    (tr : List Act) (htr : ∀ a ∈ tr, a.keysIn (· ∈ K)) (key : Nat)
+    (hh : hl (key / n) = Health.ok) (hacts : ∀ a ∈ tr, a.keepsHealthy (key / n))
+    (hlease : ∀ t, insideKey (run memOps { initRouted (Mem.init cap) n with health := hl } tr) t key = true →
+      withinLease memOps (run memOps { initRouted (Mem.init cap) n with health := hl } tr) t = true)
+    (t1 t2 : Nat)
+    (h1 : inSection (run memOps { initRouted (Mem.init cap) n with health := hl } tr) t1 key = true)
+    (h2 : inSection (run memOps { initRouted (Mem.init cap) n with health := hl } tr) t2 key = true) :
+    t1 = t2 :=
+  section_exclusion (memContract K) (mem_start_routed cap K hK n hl) tr htr key hh hacts hlease t1 t2 h1 h2
+
+/-! ### transactions: the lock commands bypass the overlay -/
+
+/-- **The lock commands are applied to the shared store whatever transaction is current.**  For every
+action that is not a transaction move (`attempt` = `set_lock`, `leave` = `unlock`, foreign `unlock`,
+`is_locked`, cancellation of a waiter, time, purge, `enter`, health changes): replacing the
+transactions of all threads by anything (`withTx s x`) changes neither the answer nor the resulting
+store / activations, and the action leaves every overlay exactly as it was.
+(`TransactionBackend.set_lock / unlock / is_locked / ping` proxy to `self._backend`.) -/
+theorem lock_commands_bypass_transactions (s : LockSt σ) (x : Nat → Option TxCtx) (a : Act)
+    (ha : a.isTxAct = false) :
+    step B (withTx s x) a = (withTx (step B s a).1 x, (step B s a).2) :=
+  step_withTx s x a ha
+
+/-- **The transaction moves do not touch the locks**: opening a transaction, writing application keys
+into its overlay, committing or rolling back changes neither the store of the lock keys nor any
+activation, identifier, routing or health. -/
+theorem transaction_moves_leave_locks_alone (s : LockSt σ) (a : Act) (ha : a.isTxAct = true) :
+    (step B s a).1.be = s.be ∧ (step B s a).1.tasks = s.tasks ∧ (step B s a).1.next = s.next ∧
+    (step B s a).1.route = s.route ∧ (step B s a).1.health = s.health := by
+  have h := step_txAct (B := B) s a ha
+  exact ⟨h.be, h.tasks, h.next, h.route, h.health⟩
+
+/-- **Along a whole run the locks do not depend on the transactions**: deleting every transaction move
+from a trace (`eraseTx`) leads to the same store and the same activations.  Together with the theorems
+above: a task that takes `cache.lock` / `@cache.locked` while it is inside a `cache.transaction()` block
+(any mode, any nesting, before or after writing in it) excludes and is excluded exactly like a task that
+is in no transaction; `mutual_exclusion…`, `released_on_every_exit`, `acquisition_liveness`,
+`section_exclusion…` are statements about ALL traces, those with `txBegin/txSet/txEnd` included. -/
+theorem locks_do_not_depend_on_transactions (s0 : LockSt σ) (tr : List Act) :
+    (run B s0 tr).be = (run B s0 (eraseTx tr)).be ∧
+    (run B s0 tr).tasks = (run B s0 (eraseTx tr)).tasks := by
+  obtain ⟨x', hx⟩ := run_eraseTx (B := B) s0 s0.tx tr
+  have e : withTx s0 s0.tx = s0 := rfl
+  rw [e] at hx
+  rw [hx]
+  exact ⟨rfl, rfl⟩
+
 /-! ### the contract is needed: the two repaired defects, as backends, break the theorems -/
 
 /-- With a token-blind `unlock` (defect D7) the stronger mutual-exclusion statement is FALSE: a holder
@@ -311,9 +497,46 @@ after the lock's ttl has elapsed a waiter is still refused, however long it wait
 purges. -/
 theorem raw_membership_set_lock_breaks_liveness :
     outs rawMembershipOps (init TtlMap.init)
-      [.enter 0 0 (some 8) true, .attempt 0, .enter 1 0 (some 8) true, .tick 8, .attempt 1,
+      [.enter 0 0 0 (some 8) true, .attempt 0, .enter 1 1 0 (some 8) true, .tick 8, .attempt 1,
        .tick 100, .attempt 1] =
     [.unit, .acquired, .unit, .unit, .retry, .unit, .retry] := by decide
+
+/-- If `set_lock` inside a transaction were the overlay's conditional write (the lock lives in the
+thread's private view), mutual exclusion would be FALSE: two threads, each in its own FAST transaction,
+are both inside the section of key 0 within their lease; and a thread in a LOCKED transaction does not
+exclude a thread that is in no transaction.  (So the bypass is needed.) -/
+theorem private_set_lock_breaks_exclusion :
+    (insideKey (runPrivate (init TtlMap.init) trTwoTx) 0 0 = true ∧
+     insideKey (runPrivate (init TtlMap.init) trTwoTx) 1 0 = true ∧
+     withinLease ttlOps (runPrivate (init TtlMap.init) trTwoTx) 0 = true ∧
+     withinLease ttlOps (runPrivate (init TtlMap.init) trTwoTx) 1 = true) ∧
+    (insideKey (runPrivate (init TtlMap.init) trTxAndPlain) 0 0 = true ∧
+     insideKey (runPrivate (init TtlMap.init) trTxAndPlain) 1 0 = true) := by decide
+
+/-- If the probe asked EVERY configured backend, a disabled backend that does not own the key would let
+a second task into the section (contended attempt answered `down`): backend 0 is off, key 100 lives on
+the healthy backend 1, tasks 0, 1 (wait=False) and 2 (wait=True) all end up in the section. -/
+theorem probe_of_all_backends_breaks_exclusion :
+    let s := runProbeAll 2 (initRouted TtlMap.init 100) trOtherBackendOff
+    inSection s 0 100 = true ∧ inSection s 1 100 = true ∧ inSection s 2 100 = true ∧
+    overstayed ttlOps s 0 = false ∧ overstayed ttlOps s 1 = false := by decide
+
+/-- The repaired behaviour (fix 9f42eb2) mirrored: `set_lock` disabled on the owning backend means no
+locking at all - every caller runs the section, nothing is written, nothing is unlocked. -/
+theorem disabled_set_lock_means_no_locking :
+    outs ttlOps (initRouted TtlMap.init 100) trSetLockOff =
+      [.unit, .unit, .noLocking, .unit, .noLocking, .bool false, .unit, .unit] := by decide
+
+/-- The owning backend stops answering the probe while task 0 holds the lock: the contended attempt of
+task 1 is answered `down` and task 1 runs the section without a lock (the documented "backend down"
+fallback of `lock()`); its exit issues no unlock, task 0's exit releases task 0's lock.  The health
+premise of `section_exclusion…` is therefore needed. -/
+theorem dead_owner_lets_second_task_in :
+    outs ttlOps (initRouted TtlMap.init 100) trOwnerDown =
+      [.unit, .acquired, .unit, .unit, .down, .unit, .released true] ∧
+    (let s := run ttlOps (initRouted TtlMap.init 100) (trOwnerDown.take 5)
+     inSection s 0 100 = true ∧ inSection s 1 100 = true ∧
+     overstayed ttlOps s 0 = false ∧ overstayed ttlOps s 1 = false) := by decide
 
 /-! ### non-vacuity: the model does something, and the premises are satisfiable -/
 
@@ -359,10 +582,42 @@ example :
 
 /-- a lock without ttl never expires; a cancelled waiter gives up without touching the lock -/
 example : outs ttlOps (init TtlMap.init)
-    [.enter 0 3 none true, .attempt 0, .tick 1000, .enter 1 3 (some 1) true, .attempt 1, .giveUp 1,
+    [.enter 0 0 3 none true, .attempt 0, .tick 1000, .enter 1 1 3 (some 1) true, .attempt 1, .giveUp 1,
      .purge, .probe 3, .leave 0 .normal, .probe 3] =
     [.unit, .acquired, .unit, .unit, .retry, .unit, .unit, .bool true, .released true, .bool false] := by
   decide
+
+/-- transactions: threads 0, 1 in FAST transactions (thread 0 has written into its overlay), thread 2 in a
+LOCKED one; the second contender is refused, the third waits and gets in after the first left -/
+example : outs ttlOps (init TtlMap.init) trTx =
+    [.unit, .unit, .unit, .unit, .unit, .acquired, .unit, .locked, .unit, .retry, .released true, .unit,
+     .acquired, .unit] := by decide
+
+example : outs memOps (init (Mem.init 10)) trTx = outs ttlOps (init TtlMap.init) trTx := by decide
+
+/-- after 10 actions of `trTx`: activation 0 holds the lock and its thread is inside a transaction with a
+non-empty overlay; activation 2 waits inside a transaction of another mode -/
+example :
+    let s := run ttlOps (init TtlMap.init) (trTx.take 10)
+    insideKey s 0 0 = true ∧ inTx s 0 = true ∧ inTx s 2 = true ∧ inSection s 2 0 = false ∧
+    (s.tx 0).map (·.overlay) = some [(50, 1)] ∧ (s.tx 2).map (·.mode) = some .locked := by decide
+
+/-- the same trace without its transaction moves gives the same answers of the lock commands -/
+example : (outs ttlOps (init TtlMap.init) (eraseTx trTx)) =
+    [.unit, .acquired, .unit, .locked, .unit, .retry, .released true, .acquired] := by decide
+
+/-- several backends: backend 0 switched off entirely, key 100 on the healthy backend 1 - the contended
+attempts are refused as usual (compare `probe_of_all_backends_breaks_exclusion`) -/
+example : outs ttlOps (initRouted TtlMap.init 100) trOtherBackendOff =
+    [.unit, .unit, .acquired, .unit, .locked, .unit, .retry] := by decide
+
+/-- the premises of `section_exclusion` are satisfiable with an unhealthy other backend -/
+example : (∀ a ∈ trOtherBackendOff, a.keepsHealthy ((initRouted TtlMap.init 100).route 100)) ∧
+    (initRouted TtlMap.init 100).health ((initRouted TtlMap.init 100).route 100) = Health.ok := by
+  refine ⟨?_, by decide⟩
+  intro a ha
+  simp only [trOtherBackendOff, List.mem_cons, List.mem_nil_iff, or_false] at ha
+  rcases ha with h | h | h | h | h | h | h <;> subst h <;> simp [Act.keepsHealthy, initRouted, init]
 
 end Examples
 
